@@ -15,6 +15,20 @@ PROPS = {
         assumptions=["total text < 2^32 bytes and < 2^32 children (the crate's u32 domain)"],
         not_yet_proved=[],
     ),
+    "C02": dict(
+        runs=runs([("red", "release")],
+                  [("red", "release"), ("red", "debug"), ("red", "lasso")]),
+        tags=["C02"],
+        rule="cases = every tree with <= 4 (thorough 5) elements over {interned 'a', interned '', multi-byte 'é', static '+'} and empty nodes: for each of 13 "
+             "routes (child iterator, backward hops, forward hops, indexed forward/backward look-ups with the documented argument, node-only hops / "
+             "iterator / indexed, token chains forwards/backwards, preorder, offset+range queries) a FRESH red tree is traversed by that route first and "
+             "re-visited forwards afterwards, every element's text resolved and compared with the slice of the whole text; then every operation from every "
+             "element; + random programs (20-80 requests) on trees of up to 150 elements, depth up to 60, through the plain and the resolved API "
+             "alternately; non-trivial = the case returned at least one element; distinct = distinct op text",
+        assumptions=["total text < 2^32 bytes (offsets are u32 in the code, Nat in the model)",
+                     "history theorem covers the 16 request kinds of C02.NavOp (+ indexed look-ups with the documented argument); token navigation and the offset/range queries are compositions of these and are tied by correspondence, their invariance proof is listed under not_yet_proved"],
+        not_yet_proved=["keeps-lemmas for first_token/last_token/next_token/prev_token, token_at_offset, covering_element (compositions of proven primitive requests)"],
+    ),
     "C04": dict(
         runs=runs([("history", "release")],
                   [("history", "release"), ("history", "lasso"), ("build", "release")]),
